@@ -302,22 +302,18 @@ class PairingToZ1d:
         return projection_to_z(x)
 
     def _projection_with_switch_to_right(self, x: int) -> int:
-        res = projection_to_z(x)
-        if self._switch or res < self.left:
-            self._switch = True
-            self._kk += 1
-            val = -self.left + self._kk + 1
-            return val
-        return res
+        # the alternating phase 1, -1, 2, -2, ... covers the indices up to 2*|left|,
+        # the remaining indices are mapped to the states on the right of |left|
+        if x > -2 * self.left:
+            return x + self.left
+        return projection_to_z(x)
 
     def _projection_with_switch_to_left(self, x: int) -> int:
-        res = projection_to_z(x)
-        if self._switch or res > self.right:
-            self._switch = True
-            self._kk += 1
-            val = -self.right - self._kk
-            return val
-        return res
+        # the alternating phase 1, -1, 2, -2, ... covers the indices up to 2*right,
+        # the remaining indices are mapped to the states on the left of -right
+        if x > 2 * self.right:
+            return self.right - x
+        return projection_to_z(x)
 
 
 class Boundary:
